@@ -190,6 +190,34 @@ def _abbrev_tables(interp) -> str:
     out.append(f"def keysFilter : List (List UInt8) := {_names(gf[0])}\n")
     out.append(f"def keysDecodeParms : List (List UInt8) := {_names(gf[1])}\n")
     out.append(f"def keysEosFilter : List (List UInt8) := {_names(eos_keys)}\n\n")
+    # round 6c: the key pairs of inline_image_size (its local `get(...)`) and of do_EI, and the ASCII85 names
+    size_fn = P.find_function(interp, "inline_image_size")
+    gets = [n for n in ast.walk(size_fn) if isinstance(n, ast.Call) and isinstance(n.func, ast.Name) and n.func.id == "get"]
+    gets.sort(key=lambda n: (n.lineno, n.col_offset))
+    if len(gets) != 6 or not all(isinstance(a, ast.Constant) and isinstance(a.value, str) for g in gets for a in g.args):
+        raise P.Untranslatable("inline_image_size: expected six get(<names>) look-ups (filter, width, height, mask, bits, cs)")
+    srcs = ast.unparse(size_fn)
+    for frag in ("is not None:\n        return None", "width = get(", "height = get(", "is True:", "bits = get(", "cs = get("):
+        if frag not in srcs:
+            raise P.Untranslatable("inline_image_size: shape changed near " + frag)
+    out.append("\n/-- The key spellings `inline_image_size` looks up, in source order. -/\n")
+    for lean, g in zip(("sizeKeysFilter", "sizeKeysWidth", "sizeKeysHeight", "sizeKeysImageMask", "sizeKeysBits",
+                        "sizeKeysColorSpace"), gets):
+        out.append(f"def {lean} : List (List UInt8) := {_names([a.value for a in g.args])}\n")
+    ei = _get_any_tuples(_method(interp, "PDFPageInterpreter", "do_EI"))
+    if len(ei) != 2:
+        raise P.Untranslatable("do_EI: expected two get_any tests (width, height)")
+    out.append("\n/-- `do_EI` accepts the stream when these look-ups are not None. -/\n")
+    out.append(f"def doEIKeysWidth : List (List UInt8) := {_names(ei[0])}\n")
+    out.append(f"def doEIKeysHeight : List (List UInt8) := {_names(ei[1])}\n\n")
+    a85 = None
+    for st in typ.body:
+        if isinstance(st, ast.Assign) and isinstance(st.targets[0], ast.Name) and st.targets[0].id == "LITERALS_ASCII85_DECODE":
+            a85 = [c.args[0].value for c in st.value.elts if isinstance(c, ast.Call) and ast.unparse(c.func) == "LIT"]
+    if not a85 or "LITERALS_ASCII85_DECODE" not in ast.unparse(dk):
+        raise P.Untranslatable("do_keyword does not compare with LITERALS_ASCII85_DECODE")
+    out.append("/-- `LITERALS_ASCII85_DECODE`: the filter names that switch the end marker to `~>`. -/\n")
+    out.append(f"def a85Names : List (List UInt8) := {_names(a85)}\n\n")
     out.append("/-- `pdftypes.LITERALS_*_DECODE`: the names each filter is recognised under. -/\n")
     out.append("def filterNames : List (List (List UInt8)) := [" + ", ".join(_names(v) for v in pairs) + "]\n\n")
     out.append("/-- `pdfcolor.LITERAL_DEVICE_* / LITERAL_INLINE_DEVICE_*`. -/\n")
